@@ -27,6 +27,19 @@ Notation "x <- e ;; k" := (bind e (fun x => k)) (at level 61, e at next level, r
 
 Definition bad {A} (r : out A) : bool := match r with Panic | OutOfFuel => true | _ => false end.
 
+(* results with a tick counter: loop iterations / node visits made so far,
+   whatever the outcome (so that a step bound can be stated for the error
+   paths too) *)
+Definition tk (A : Type) := (out A * nat)%type.
+Definition tlift {A} (r : out A) : tk A := (r, 0%nat).
+Definition tbind {A B} (m : tk A) (k : A -> tk B) : tk B :=
+  match fst m with
+  | Val a => let r := k a in (fst r, (snd m + snd r)%nat)
+  | Err => (Err, snd m) | Panic => (Panic, snd m) | OutOfFuel => (OutOfFuel, snd m)
+  end.
+Definition tick {A} (m : tk A) : tk A := (fst m, S (snd m)).
+Notation "x <~ e ;; k" := (tbind e (fun x => k)) (at level 61, e at next level, right associativity).
+
 (* data[i]: run-time panic when i is out of range *)
 Definition idx (data : bytes) (i : nat) : out N :=
   match nth_error data i with Some b => Val b | None => Panic end.
@@ -375,69 +388,282 @@ Section extract.
     | Err => ([], Err, 0%nat) | Panic => ([], Panic, 0%nat) | OutOfFuel => ([], OutOfFuel, 0%nat)
     end.
 
-  (* The extract*Offsets walkers of ledger/common/common.go and
-     streaming_decode.go (extractMetadataOffsets, extractDatumOffsets,
-     extractRedeemerMapOffsets, extractRedeemerArrayOffsets,
-     extractWitnessComponentOffsets, extractOutputOffsets) share one loop:
+End extract.
 
-       count, headerSize, indefinite := cbor{Array,Map}Info(data)
-       dec := NewStreamDecoder(data[headerSize:])
-       for i := 0; indefinite || i < count; i++ {
-           if indefinite { p := headerSize + dec.Position(); if p >= len(data) || data[p] == 0xff { break } }
-           <k stream operations; the first failure returns>
-       }
+(* ================================================================== *)
+(* The offset walkers of ledger/common/common.go and streaming_decode.go as
+   they are in the CURRENT tree (after the fix commits "measure array
+   headers", "tag wrappers", "EBB"): every index / slice expression with its
+   guard, every loop with fuel, and - unlike the first round - the OFFSETS
+   they return, so that the model can be compared with what the exported
+   entry points ExtractTransactionOffsets / DecodeWithOffsets produce.
 
-     modelled at the level "every index expression with its guard" (their
-     OUTPUT is the subject of C07).  `oks` are the acceptance predicates of the
-     k operations of one iteration.  Result: iterations done. *)
-  Fixpoint stream_ops (oks : list (item -> bool)) (data : bytes) (pos : nat) : option nat :=
-    match oks with
-    | [] => Some pos
-    | o :: r => match sd_next o data pos with Some (_, n) => stream_ops r data (pos + n) | None => None end
-    end.
+   fxamacker's typed destinations (calibrated against the library, see notes):
+     Decode(&uint64)        unsigned integer; tag numbers are skipped; null and
+                            undefined leave the (zero) variable untouched; a
+                            simple value other than false/true is its number
+     Decode(&[]RawMessage)  array (either form), tag numbers skipped, null and
+                            undefined give a nil slice; an element is the
+                            element's bytes
+     Decode(&[]uint64)      the same with Decode(&uint64) per element
+     Skip / DecodeRaw(new(RawMessage))   any well-formed item
+   Offsets are Go uint32 (wrap written out: `u32`), positions are Go int (nat). *)
+Fixpoint strip_tags (i : item) : item := match i with Tag _ _ x => strip_tags x | _ => i end.
+Definition is_nil (v : N) : bool := (v =? 22) || (v =? 23).
+Definition uint_of (i : item) : option N :=
+  match strip_tags i with
+  | UInt _ n => Some n
+  | Simple _ v => if is_nil v then Some 0 else if (v =? 20) || (v =? 21) then None else Some v
+  | _ => None
+  end.
+Definition items_of (i : item) : option (list item) :=
+  match strip_tags i with
+  | Arr _ xs => Some xs
+  | Simple _ v => if is_nil v then Some [] else None
+  | _ => None
+  end.
+Fixpoint uints_of_items (xs : list item) : option (list N) :=
+  match xs with
+  | [] => Some []
+  | x :: r => match uint_of x, uints_of_items r with Some n, Some l => Some (n :: l) | _, _ => None end
+  end.
+Definition uints_of (i : item) : option (list N) :=
+  match items_of i with Some xs => uints_of_items xs | None => None end.
 
-  Fixpoint walk_items (fuel : nat) (oks : list (item -> bool)) (data : bytes) (hs : nat) (indef : bool)
-      (count : N) (pos i : nat) : out nat :=
+(* one stream operation at position pos of the decoder over `data`:
+   the decoded value and the number of bytes read *)
+Definition sd_val {V} (f : item -> option V) (data : bytes) (pos : nat) : option (V * nat) :=
+  match parse_full (skipn pos data) with
+  | Ok i rest => match f i with
+                 | Some v => Some (v, (length (skipn pos data) - length rest)%nat)
+                 | None => None end
+  | _ => None
+  end.
+Definition sd_skip := sd_val (fun _ : item => Some tt).          (* Skip, DecodeRaw(new(RawMessage)) *)
+Definition sd_uint := sd_val uint_of.                            (* Decode(&uint64) *)
+Definition sd_items := sd_val items_of.                          (* Decode(&[]RawMessage) *)
+Definition sd_uints := sd_val uints_of.                          (* Decode(&[]uint64) *)
+(* cbor.Decode(bs, &[]RawMessage) *)
+Definition raw_list (bs : bytes) : option (list bytes) :=
+  match sd_items bs 0 with Some (xs, _) => Some (map enc xs) | None => None end.
+
+Definition two32 : N := 4294967296.
+Definition u32 (n : N) : N := n mod two32.
+Definition range := (N * N)%type.                               (* ByteRange{Offset, Length} *)
+Definition zero_range : range := (0, 0).
+Definition count_of (c : option N) : N := match c with Some c => c | None => 0 end.
+
+(* cborArrayHeaderSize(length) *)
+Definition array_header_size (len : nat) : N :=
+  let n := N.of_nat len in if n <? 24 then 1 else if n <? 256 then 2 else if n <? 65536 then 3 else 5.
+(* cborArrayHeaderSizeOf(data, length): the header that is there, else the minimal one *)
+Definition array_header_size_of (data : bytes) (len : nat) : out N :=
+  r <- array_info data ;;
+  let '(_, hs, _) := r in
+  if Nat.ltb 0 hs then Val (N.of_nat hs) else Val (array_header_size len).
+
+(* cborSkipTags(data): for len(data) > 0 && data[0]&0xe0 == 0xc0 { size by additional info;
+   default -> return; len(data) < size -> return; data = data[size:]; skipped += size }
+   result: remaining data, bytes skipped, iterations *)
+Definition tag_size (ai : N) : nat :=
+  if ai <=? 23 then 1%nat else if ai =? 24 then 2%nat else if ai =? 25 then 3%nat
+  else if ai =? 26 then 5%nat else if ai =? 27 then 9%nat else 0%nat.
+Fixpoint skip_tags (fuel : nat) (data : bytes) (skipped : N) (steps : nat) : out (bytes * N * nat) :=
+  match fuel with
+  | O => OutOfFuel
+  | S f =>
+    if Nat.ltb 0 (length data) then
+      b0 <- idx data 0 ;;
+      if N.land b0 224 =? 192 then
+        let size := tag_size (N.land b0 31) in
+        if Nat.eqb size 0 then Val (data, skipped, steps)
+        else if Nat.ltb (length data) size then Val (data, skipped, steps)
+        else d <- slice_from data size ;; skip_tags f d (u32 (skipped + N.of_nat size)) (S steps)
+      else Val (data, skipped, steps)
+    else Val (data, skipped, steps)
+  end.
+
+(* ---- the loop all walkers share --------------------------------------
+     count, headerSize, indefinite := cbor{Array,Map}Info(data)
+     dec := NewStreamDecoder(data[headerSize:])
+     for i := 0; indefinite || i < count; i++ {
+         if indefinite { p := headerSize + dec.Position(); if p >= len(data) || data[p] == 0xff { break } }
+         BODY
+     }
+   BODY at decoder position pos: goes on at pos' having recorded es (SNext; a
+   `continue` after the element was read is SNext with nothing recorded),
+   or returns from the function (SStop with what it recorded, SAbort with
+   nothing).  t = loop iterations made inside BODY (nested walkers). *)
+Inductive sres (E : Type) := SNext (es : list E) (pos' t : nat) | SStop (es : list E) (t : nat) | SAbort (t : nat).
+Arguments SNext {E}. Arguments SStop {E}. Arguments SAbort {E}.
+
+Section wloop.
+  Variable E : Type.
+  Variable step : nat -> out (sres E).
+  (* result: everything recorded, iterations made (nested ones included) *)
+  Fixpoint wloop (fuel : nat) (data : bytes) (hs : nat) (indef : bool) (count : N)
+      (pos i : nat) (acc : list E) (ticks : nat) : out (list E * nat) :=
     match fuel with
     | O => OutOfFuel
     | S f =>
-      if negb (indef || (N.of_nat i <? count)) then Val i else
+      if negb (indef || (N.of_nat i <? count)) then Val (acc, ticks) else
       brk <- (if indef then
                 if Nat.leb (length data) (hs + pos) then Val true
                 else b <- idx data (hs + pos) ;; Val (b =? 255)
               else Val false) ;;
-      if (brk : bool) then Val i else
-      match stream_ops oks (skipn hs data) pos with
-      | None => Val i                                  (* return on the first error *)
-      | Some pos' => walk_items f oks data hs indef count pos' (S i)
+      if (brk : bool) then Val (acc, ticks) else
+      r <- step pos ;;
+      match r with
+      | SNext es pos' t => wloop f data hs indef count pos' (S i) (acc ++ es) (S (ticks + t))
+      | SStop es t => Val (acc ++ es, S (ticks + t))
+      | SAbort t => Val (acc, S (ticks + t))
       end
     end.
+End wloop.
+Arguments wloop {E}.
 
-  Definition walker (major : N) (oks : list (item -> bool)) (fuel : nat) (data : bytes) : out nat :=
-    r <- info major data ;;
-    let '(cnt, hs, indef) := r in
-    if info_invalid r then Val 0%nat else
-    _ <- slice_from data hs ;;
-    walk_items fuel oks data hs indef (match cnt with Some c => c | None => 0 end) 0 0.
-End extract.
+(* header, `count < 0 && !indefinite -> return`, data[headerSize:], the loop *)
+Definition wrun {E} (major : N) (fuel : nat) (data : bytes) (step : nat -> nat -> out (sres E)) : out (list E * nat) :=
+  r <- info major data ;;
+  let '(cnt, hs, indef) := r in
+  if info_invalid r then Val ([], 0%nat) else
+  _ <- slice_from data hs ;;
+  wloop (step hs) fuel data hs indef (count_of cnt) 0 0 [] 0.
 
-Definition extract_metadata_offsets := walker 160 [u64_ok; any_ok].          (* key uint64, Skip *)
-Definition extract_datum_offsets := walker 128 [any_ok].                     (* DecodeRaw *)
-Definition extract_redeemer_array_offsets := walker 128 [any_ok].            (* DecodeRaw; the element is re-scanned below *)
-Definition extract_witness_component_offsets := walker 160 [u64_ok; any_ok]. (* key uint64, DecodeRaw *)
-Definition extract_output_offsets_scan := walker 160 [u64_ok; any_ok].       (* key uint64, Skip / Decode outputs *)
+(* what the witness walkers record: the Go maps are keyed by a hash of the
+   content (datums, scripts) or by (tag, index) (redeemers) *)
+Inductive comp :=
+| CDatum (r : range) (content : bytes)
+| CRedeemer (tag idx : N) (r : range)
+| CScript (ty : N) (r : range) (content : bytes).
 
-(* the inner index expressions of extractRedeemer{Map,Array}Offsets:
-     _, h, _ := cborArrayInfo(v); if int(h) >= len(v) { continue }; NewStreamDecoder(v[h:]) *)
-Definition redeemer_inner (v : bytes) : out bool :=
-  r <- array_info v ;;
-  let '(_, h, _) := r in
-  if Nat.leb (length v) h then Val false else _ <- slice_from v h ;; Val true.
+(* extractDatumOffsets: dec.DecodeRaw -> (offset, d.data[relStart:relEnd]) *)
+Definition datum_step (data : bytes) (base : N) (hs pos : nat) : out (sres comp) :=
+  let stream := skipn hs data in
+  match sd_skip stream pos with
+  | None => Val (SAbort 0)
+  | Some (_, n) =>
+      s <- slice stream pos (pos + n) ;;
+      Val (SNext [CDatum (u32 (base + N.of_nat hs + N.of_nat pos), u32 (nlen s)) s] (pos + n) 0)
+  end.
+Definition datum_offsets (fuel : nat) (data : bytes) (base : N) : out (list comp * nat) :=
+  if Nat.ltb (length data) 1 then Val ([], 0%nat) else
+  t <- skip_tags fuel data 0 0 ;;
+  let '(d, ts, k) := t in
+  r <- wrun 128 fuel d (datum_step d (u32 (base + ts))) ;;
+  Val (fst r, (k + snd r)%nat).
 
-(* the offset adjustment of extractOutputOffsets (uint32 arithmetic):
+(* extractScriptArrayOffsets: the elements come from cbor.Decode(&[]RawMessage);
+   positions from cborSkipTags and (0x9f ? 1 : cborArrayInfo(arrayData).headerSize) *)
+Fixpoint walk_scripts (ty : N) (base pos : N) (scripts : list bytes) : list comp :=
+  match scripts with
+  | [] => []
+  | s :: r => CScript ty (u32 (base + pos), u32 (nlen s)) s :: walk_scripts ty base (u32 (pos + u32 (nlen s))) r
+  end.
+Definition script_offsets (fuel : nat) (ty : N) (data : bytes) (base : N) : out (list comp * nat) :=
+  if Nat.ltb (length data) 1 then Val ([], 0%nat) else
+  match raw_list data with
+  | None => Val ([], 0%nat)
+  | Some scripts =>
+      t <- skip_tags fuel data 0 0 ;;
+      let '(d, ts, k) := t in
+      is9f <- (if Nat.ltb 0 (length d) then b <- idx d 0 ;; Val (b =? 159) else Val false) ;;
+      hs <- (if (is9f : bool) then Val 1 else r <- array_info d ;; Val (N.of_nat (snd (fst r)))) ;;
+      Val (walk_scripts ty base (u32 (ts + hs)) scripts, (k + length scripts)%nat)
+  end.
+
+(* extractRedeemerArrayOffsets: [[purpose, index, data, exunits], ...] *)
+Definition redeemer_arr_step (data : bytes) (base : N) (hs pos : nat) : out (sres comp) :=
+  let stream := skipn hs data in
+  match sd_skip stream pos with
+  | None => Val (SAbort 0)
+  | Some (_, n) =>
+      elem <- slice stream pos (pos + n) ;;
+      r <- array_info elem ;;
+      let '(_, ih, _) := r in
+      if Nat.leb (length elem) ih then Val (SNext [] (pos + n) 0) else       (* int(innerHeaderSize) >= len(elemBytes): continue *)
+      e <- slice_from elem ih ;;
+      match sd_uint e 0 with
+      | None => Val (SNext [] (pos + n) 0)
+      | Some (purpose, l1) =>
+        match sd_uint e l1 with
+        | None => Val (SNext [] (pos + n) 0)
+        | Some (index, l2) =>
+          match sd_skip e (l1 + l2) with
+          | None => Val (SNext [] (pos + n) 0)
+          | Some (_, dl) =>
+              Val (SNext [CRedeemer (purpose mod 256) (u32 index)
+                            (u32 (base + N.of_nat hs + N.of_nat pos + N.of_nat ih + N.of_nat (l1 + l2)), u32 (N.of_nat dl))]
+                         (pos + n) 0)
+          end
+        end
+      end
+  end.
+
+(* extractRedeemerMapOffsets: {[purpose, index]: [data, exunits], ...} *)
+Definition redeemer_map_step (data : bytes) (base : N) (hs pos : nat) : out (sres comp) :=
+  let stream := skipn hs data in
+  match sd_uints stream pos with
+  | None => Val (SAbort 0)
+  | Some (kp, kl) =>
+    match kp with
+    | purpose :: index :: _ =>
+      match sd_skip stream (pos + kl) with
+      | None => Val (SAbort 0)
+      | Some (_, vl) =>
+          value <- slice stream (pos + kl) (pos + kl + vl) ;;
+          r <- array_info value ;;
+          let '(_, vh, _) := r in
+          if Nat.leb (length value) vh then Val (SNext [] (pos + kl + vl) 0) else
+          v <- slice_from value vh ;;
+          match sd_skip v 0 with
+          | None => Val (SNext [] (pos + kl + vl) 0)
+          | Some (_, dl) =>
+              Val (SNext [CRedeemer (purpose mod 256) (u32 index)
+                            (u32 (base + N.of_nat hs + N.of_nat (pos + kl) + N.of_nat vh), u32 (N.of_nat dl))]
+                         (pos + kl + vl) 0)
+          end
+      end
+    | _ => Val (SAbort 0)                                      (* len(keyPair) < 2 *)
+    end
+  end.
+
+(* extractRedeemerOffsets: len < 1 -> return; redeemerData[0] & 0xe0 *)
+Definition redeemer_offsets (fuel : nat) (data : bytes) (base : N) : out (list comp * nat) :=
+  if Nat.ltb (length data) 1 then Val ([], 0%nat) else
+  b0 <- idx data 0 ;;
+  if N.land b0 224 =? 128 then wrun 128 fuel data (redeemer_arr_step data base)
+  else if N.land b0 224 =? 160 then wrun 160 fuel data (redeemer_map_step data base)
+  else Val ([], 0%nat).
+
+(* extractWitnessComponentOffsets *)
+Definition witness_step (fuel : nat) (data : bytes) (base : N) (hs pos : nat) : out (sres comp) :=
+  let stream := skipn hs data in
+  match sd_uint stream pos with
+  | None => Val (SAbort 0)
+  | Some (key, kl) =>
+    match sd_skip stream (pos + kl) with
+    | None => Val (SAbort 0)
+    | Some (_, vl) =>
+        value <- slice stream (pos + kl) (pos + kl + vl) ;;
+        let abs := u32 (base + N.of_nat hs + N.of_nat (pos + kl)) in
+        r <- (if key =? 4 then datum_offsets fuel value abs
+              else if key =? 5 then redeemer_offsets fuel value abs
+              else if key =? 1 then script_offsets fuel 0 value abs
+              else if key =? 3 then script_offsets fuel 1 value abs
+              else if key =? 6 then script_offsets fuel 2 value abs
+              else if key =? 7 then script_offsets fuel 3 value abs
+              else if key =? 8 then script_offsets fuel 4 value abs
+              else Val ([], 0%nat)) ;;
+        Val (SNext (fst r) (pos + kl + vl) (snd r))
+    end
+  end.
+Definition witness_components (fuel : nat) (data : bytes) (base : N) : out (list comp * nat) :=
+  if Nat.ltb (length data) 2 then Val ([], 0%nat) else wrun 160 fuel data (witness_step fuel data base).
+
+(* the offset adjustment of common.extractOutputOffsets (uint32 arithmetic):
      bodyIdx := int(adjustedOffset - bodyOffset)
      if bodyIdx >= 0 && bodyIdx < len(bodyData) { b := bodyData[bodyIdx]; ... if !valid && bodyIdx > 0 { prev := bodyData[bodyIdx-1] ... } } *)
-Definition two32 : N := 4294967296.
 Definition is_out_start (b : N) : bool := (128 <=? b) && (b <=? 191).
 Definition adjust_output_offset (body : bytes) (body_off out_pos : N) : out N :=
   let bi := N.to_nat ((out_pos + two32 - body_off mod two32) mod two32) in
@@ -447,6 +673,194 @@ Definition adjust_output_offset (body : bytes) (body_off out_pos : N) : out N :=
       p <- idx body (bi - 1) ;; Val (if is_out_start p then (out_pos + two32 - 1) mod two32 else out_pos)
     else Val out_pos
   else Val out_pos.
+
+(* for j, rawOutput := range outputsRaw { ...; outputPos += outputLen }
+   heur = the function in common.go (adjusts), false = the method in streaming_decode.go *)
+Fixpoint walk_outputs (heur : bool) (body : bytes) (body_off pos : N) (outs : list bytes) : out (list range) :=
+  match outs with
+  | [] => Val []
+  | o :: r =>
+      p <- (if heur then adjust_output_offset body body_off pos else Val pos) ;;
+      rest <- walk_outputs heur body body_off (u32 (pos + u32 (nlen o))) r ;;
+      Val ((p, u32 (nlen o)) :: rest)
+  end.
+
+(* extractOutputOffsets (both copies): key 1 -> Decode(&outputsRaw), header size of
+   bodyData[headerSize+valueStart:], positions of the elements, return *)
+Definition outputs_step (heur : bool) (body : bytes) (body_off : N) (hs pos : nat) : out (sres range) :=
+  let stream := skipn hs body in
+  match sd_uint stream pos with
+  | None => Val (SAbort 0)
+  | Some (key, kl) =>
+    if key =? 1 then
+      let vstart := (pos + kl)%nat in
+      match sd_items stream vstart with
+      | None => Val (SAbort 0)
+      | Some (outs, _) =>
+          let raws := map enc outs in
+          let arr_off := u32 (body_off + N.of_nat hs + N.of_nat vstart) in
+          d <- slice_from body (hs + vstart) ;;
+          h <- array_header_size_of d (length raws) ;;
+          rs <- walk_outputs heur body body_off (u32 (arr_off + h)) raws ;;
+          Val (SStop rs (length raws))
+      end
+    else
+      match sd_skip stream (pos + kl) with
+      | None => Val (SAbort 0)
+      | Some (_, vl) => Val (SNext [] (pos + kl + vl) 0)
+      end
+  end.
+Definition output_offsets (heur : bool) (fuel : nat) (body : bytes) (body_off : N) : out (list range * nat) :=
+  if Nat.ltb (length body) 2 then Val ([], 0%nat) else wrun 160 fuel body (outputs_step heur body body_off).
+
+(* extractMetadataOffsets: (uint32(txIdx), offset, length) in insertion order;
+   an error return keeps what was recorded (the caller ignores the error) *)
+Definition metadata_step (data : bytes) (base : N) (hs pos : nat) : out (sres (N * range)) :=
+  let stream := skipn hs data in
+  match sd_uint stream pos with
+  | None => Val (SAbort 0)
+  | Some (idx, kl) =>
+    match sd_skip stream (pos + kl) with
+    | None => Val (SAbort 0)
+    | Some (_, vl) =>
+        Val (SNext [(u32 idx, (u32 (base + N.of_nat hs + N.of_nat (pos + kl)), u32 (N.of_nat vl)))] (pos + kl + vl) 0)
+    end
+  end.
+Definition metadata_offsets (fuel : nat) (data : bytes) (base : N) : out (list (N * range) * nat) :=
+  if Nat.eqb (length data) 0 then Val ([], 0%nat) else wrun 160 fuel data (metadata_step data base).
+
+(* Go map semantics: the last insertion for a key wins *)
+Fixpoint lookup_last {V} (k : N) (l : list (N * V)) : option V :=
+  match l with
+  | [] => None
+  | (k', v) :: r => match lookup_last k r with Some w => Some w | None => if k' =? k then Some v else None end
+  end.
+
+Record txloc := mk_txloc { l_body : range; l_wit : range; l_meta : range; l_outs : list range; l_comps : list comp }.
+
+(* isByronBlock / isDijkstraBlock: shape tests made of cbor.Decode(&[]RawMessage) calls *)
+Definition is_byron_block (blk : list bytes) : bool :=
+  match blk with
+  | [_; b1; _] =>
+      match raw_list b1 with
+      | Some [p0; _; _; _] =>
+          match raw_list p0 with
+          | Some [] => true
+          | Some (pair0 :: _) => match raw_list pair0 with Some [_; _] => true | _ => false end
+          | None => false
+          end
+      | _ => false
+      end
+  | _ => false
+  end.
+Definition is_dijkstra_block (blk : list bytes) : bool :=
+  match blk with
+  | [_; b1] =>
+      match raw_list b1 with
+      | Some [_; p1; _; _] =>
+          match raw_list p1 with
+          | Some [] => true
+          | Some (tx0 :: _) => match raw_list tx0 with Some [_; _; _] => true | _ => false end
+          | None => false
+          end
+      | _ => false
+      end
+  | _ => false
+  end.
+
+(* the two loops over the decoded bodies / witness sets (Go `range` over a slice) *)
+Fixpoint walk_bodies (heur : bool) (fuel : nat) (pos : N) (bodies : list bytes) : out (list (range * list range) * nat) :=
+  match bodies with
+  | [] => Val ([], 0%nat)
+  | b :: r =>
+      o <- output_offsets heur fuel b pos ;;
+      rest <- walk_bodies heur fuel (u32 (pos + u32 (nlen b))) r ;;
+      Val (((pos, u32 (nlen b)), fst o) :: fst rest, S (snd o + snd rest))
+  end.
+Fixpoint walk_witnesses (fuel : nat) (pos : N) (wits : list bytes) : out (list (range * list comp) * nat) :=
+  match wits with
+  | [] => Val ([], 0%nat)
+  | w :: r =>
+      c <- witness_components fuel w pos ;;
+      rest <- walk_witnesses fuel (u32 (pos + u32 (nlen w))) r ;;
+      Val (((pos, u32 (nlen w)), fst c) :: fst rest, S (snd c + snd rest))
+  end.
+Fixpoint assemble (i : N) (bs : list (range * list range)) (ws : list (range * list comp)) (metas : list (N * range)) : list txloc :=
+  match bs, ws with
+  | (b, outs) :: br, (w, comps) :: wr =>
+      mk_txloc b w (match lookup_last i metas with Some r => r | None => zero_range end) outs comps
+      :: assemble (i + 1) br wr metas
+  | _, _ => []
+  end.
+
+(* outcome of the block walkers: the transaction locations and the iterations made;
+   XUnmodelled = the Byron main block / Dijkstra layouts (library calls and
+   additions only; not transcribed here, see C07) *)
+Inductive xres := XDone (txs : list txloc) (ticks : nat) | XUnmodelled.
+
+(* ExtractTransactionOffsets (streaming = false) and StreamingBlockDecoder.DecodeWithOffsets
+   (streaming = true); Err = the Go error return.  blockArray[0..3] after the
+   length guards are index expressions: the `_ => Panic` branch is what an
+   index out of range would be. *)
+Definition extract_offsets (streaming : bool) (fuel : nat) (data : bytes) : out xres :=
+  match raw_list data with
+  | None => Err
+  | Some blk =>
+    if negb streaming && is_dijkstra_block blk then Val XUnmodelled
+    else if Nat.ltb (length blk) 3 then Val (XDone [] 0)
+    else if is_byron_block blk then Val XUnmodelled
+    else if Nat.ltb (length blk) 4 then Val (XDone [] 0)
+    else
+      d0 <- slice_from data 0 ;;                                   (* d.data[blockStart:] ; cborData *)
+      ahs <- array_header_size_of d0 (length blk) ;;
+      match blk with
+      | b0 :: b1 :: b2 :: b3 :: _ =>
+          let bodies_off := u32 (ahs + u32 (nlen b0)) in
+          let wits_off := u32 (bodies_off + u32 (nlen b1)) in
+          let meta_off := u32 (wits_off + u32 (nlen b2)) in
+          match raw_list b1 with
+          | None => Err
+          | Some bodies =>
+            match raw_list b2 with
+            | None => Err
+            | Some wits =>
+              if negb (Nat.eqb (length bodies) (length wits)) then Err else
+              metas <- (if Nat.ltb 1 (length b3) then metadata_offsets fuel b3 meta_off else Val ([], 0%nat)) ;;
+              bh <- array_header_size_of b1 (length bodies) ;;
+              bl <- walk_bodies (negb streaming) fuel (u32 (bodies_off + bh)) bodies ;;
+              wh <- array_header_size_of b2 (length wits) ;;
+              wl <- walk_witnesses fuel (u32 (wits_off + wh)) wits ;;
+              Val (XDone (assemble 0 (fst bl) (fst wl) (fst metas)) (snd metas + snd bl + snd wl + length bodies)%nat)
+            end
+          end
+      | _ => Panic
+      end
+  end.
+
+(* ExtractTransactionBodyCbor / ExtractWitnessCbor / ExtractOutputCbor after the index checks:
+   end := uint64(Offset) + uint64(Length); if end > len -> error; blockData[Offset : Offset+Length]
+   (the slice bounds are computed in uint32) *)
+Definition extract_cbor (data : bytes) (r : range) : out bytes :=
+  let '(off, len) := r in
+  if N.of_nat (length data) <? off + len then Err
+  else slice data (N.to_nat off) (N.to_nat (u32 (off + len))).
+
+(* cbor.StreamDecoder.DecodeArrayItems at position abs (= consumed + NumBytesRead):
+   Decode(&[]RawMessage), cborArrayHeaderSizeFromBytes(d.data, arrayStart), then the
+   callback for every item with (index, position, length).
+   Result: (arrayStart, total length, callback arguments) *)
+Fixpoint walk_items_cb (i pos : nat) (items : list bytes) : list (nat * nat * nat) :=
+  match items with
+  | [] => []
+  | x :: r => (i, pos, length x) :: walk_items_cb (S i) (pos + length x) r
+  end.
+Definition decode_array_items (data : bytes) (abs : nat) : out (nat * nat * list (nat * nat * nat)) :=
+  match sd_items data abs with
+  | None => Err
+  | Some (xs, n) =>
+      h <- header_size_from_bytes data abs ;;
+      Val (abs, n, walk_items_cb 0 (abs + h) (map enc xs))
+  end.
 
 (* ================================================================== *)
 (* muxer.readLoop framing.  The connection is the byte stream `conn`;
@@ -466,122 +880,169 @@ Fixpoint mux_read (fuel : nat) (conn : bytes) (segs : nat) (allocs : list N) : o
     else mux_read f (skipn (8 + N.to_nat plen) conn) (S segs) allocs'
   end.
 
-(* protocol.readLoop, buffer handling for one state of the read buffer:
-   cbor.Decode(buffer, &[]RawMessage) gives numBytesRead and the list; then
-   tmpMsg[0], buffer[:numBytesRead], buffer[numBytesRead:].  `lib` is the
-   library's answer: None = error / need more data, Some (n, k) = n bytes read,
-   k list elements.  Result: messages delivered. *)
+(* protocol.readLoop, buffer handling.  The muxer hands over segment payloads;
+   each is appended to the read buffer, then, as long as data is left over:
+     cbor.Decode(buffer, &[]RawMessage):  io.ErrUnexpectedEOF -> wait for the next segment
+         (error once the buffer is above 16 MiB); another error -> SendError, return;
+         numBytesRead == 0 or an empty list -> error / return
+     cbor.Decode(tmpMsg[0], &msgType): error -> SendError, return
+     msgData := buffer[:numBytesRead]; MessageFromCborFunc(msgType, msgData)
+     numBytesRead < len(buffer) -> buffer = buffer[numBytesRead:], go on; else buffer.Reset()
+   `lib` is the library's answer on the buffer, `typ` its answer on the first element. *)
+Inductive lib_res := LMsg (n k : nat) (first : bytes) | LMore | LBad.
+Inductive pstat := PWait (buf : bytes) | PStop.
+Definition max_read_buffer : N := 16777216.
+
 Section proto.
-  Variable lib : bytes -> option (nat * nat).
-  Fixpoint proto_read (fuel : nat) (buf : bytes) (msgs : nat) : out nat :=
+  Variable lib : bytes -> lib_res.
+  Variable typ : bytes -> option N.
+  (* the inner loop on one state of the buffer: messages delivered (type, bytes), what then *)
+  Fixpoint proto_drain (fuel : nat) (buf : bytes) (acc : list (N * bytes)) : out (list (N * bytes) * pstat) :=
     match fuel with
     | O => OutOfFuel
     | S f =>
-      if Nat.eqb (length buf) 0 then Val msgs else
+      if Nat.eqb (length buf) 0 then Val (acc, PStop) else
       match lib buf with
-      | None => Val msgs                                  (* wait for the next segment / error *)
-      | Some (n, k) =>
-          if Nat.eqb n 0 || Nat.eqb k 0 then Val msgs else
-          (* tmpMsg[0] *)
-          _ <- (if Nat.ltb 0 k then Val tt else Panic) ;;
-          _ <- slice buf 0 n ;;                         (* readBuffer.Bytes()[:numBytesRead] *)
-          if Nat.ltb n (length buf) then
-            rest <- slice_from buf n ;; proto_read f rest (S msgs)   (* readBuffer.Bytes()[numBytesRead:] *)
-          else Val (S msgs)
+      | LMore => if max_read_buffer <? nlen buf then Val (acc, PStop) else Val (acc, PWait buf)
+      | LBad => Val (acc, PStop)
+      | LMsg n k first =>
+          if Nat.eqb n 0 || Nat.eqb k 0 then Val (acc, PStop) else
+          _ <- (if Nat.ltb 0 k then Val tt else Panic) ;;                     (* tmpMsg[0] *)
+          match typ first with
+          | None => Val (acc, PStop)
+          | Some ty =>
+              msg <- slice buf 0 n ;;                                         (* readBuffer.Bytes()[:numBytesRead] *)
+              if Nat.ltb n (length buf) then
+                rest <- slice_from buf n ;; proto_drain f rest (acc ++ [(ty, msg)])   (* readBuffer.Bytes()[numBytesRead:] *)
+              else Val (acc ++ [(ty, msg)], PWait [])
+          end
       end
     end.
+
+  (* the outer loop over the segments; every delivered message carries the index of the
+     segment after which it was delivered; Some j = the loop ended (error) at segment j *)
+  Fixpoint proto_read (fuel : nat) (segs : list bytes) (si : nat) (buf : bytes)
+      (acc : list (nat * (N * bytes))) : out (list (nat * (N * bytes)) * option nat) :=
+    match segs with
+    | [] => Val (acc, None)
+    | s :: r =>
+        d <- proto_drain fuel (buf ++ s) [] ;;
+        let '(msgs, st) := d in
+        let acc' := acc ++ map (fun m => (si, m)) msgs in
+        match st with
+        | PWait b => proto_read fuel r (S si) b acc'
+        | PStop => Val (acc', Some si)
+        end
+    end.
 End proto.
+
+(* the library calls of the read loop through the Lib parser *)
+Definition lib_cbor (buf : bytes) : lib_res :=
+  match parse_full buf with
+  | Ok i rest =>
+      match items_of i with
+      | Some xs => LMsg (length buf - length rest) (length xs) (match xs with x :: _ => enc x | [] => [] end)
+      | None => LBad
+      end
+  | NeedMore => LMore
+  | Bad => LBad
+  end.
+Definition typ_cbor (bs : bytes) : option N :=
+  match parse_full bs with Ok i _ => uint_of i | _ => None end.
 
 (* ================================================================== *)
 (* cbor/diagnostic.go: parseDiagnosticNode and its helpers.  A node is
    (offset, length, children); primitives come from the stream decoder.
-   `depth` is the Go depth argument (error above 256). *)
+   `depth` is the Go depth argument (error above 256).  Every function returns
+   its result AND the number of parseDiagnosticNode calls made so far (`tk`):
+   one call = one tick; every loop iteration of the array / map / chunk loops
+   makes at least one such call or leaves the loop. *)
 Inductive dnode := DN (off len : nat) (kids : list dnode).
 Definition max_diag_depth : nat := 256.
 
 Section diag.
   Variable ok : item -> bool.
 
-  (* indefinite loop:  pos >= len -> error ; data[pos] == 0xff -> Advance(1), break ; else child(ren) *)
-  Fixpoint diag_node (fuel : nat) (data : bytes) (depth pos : nat) {struct fuel} : out (dnode * nat) :=
+  (* data[start:end] of a finished container / tag / chunked string *)
+  Definition diag_close {K} (data : bytes) (pos : nat) (mk : K -> list dnode) (r : K * nat) : tk (dnode * nat) :=
+    let '(kids, e) := r in tlift (_ <- slice data pos e ;; Val (DN pos (e - pos) (mk kids), e)).
+
+  Fixpoint diag_node (fuel : nat) (data : bytes) (depth pos : nat) {struct fuel} : tk (dnode * nat) :=
     match fuel with
-    | O => OutOfFuel
-    | S f =>
-      if Nat.ltb max_diag_depth depth then Err else
-      if Nat.leb (length data) pos then Err else
-      first <- idx data pos ;;
+    | O => (OutOfFuel, 0%nat)
+    | S f => tick (
+      if Nat.ltb max_diag_depth depth then tlift Err else
+      if Nat.leb (length data) pos then tlift Err else
+      first <~ tlift (idx data pos) ;;
       let mt := N.land first 224 in
       let ai := N.land first 31 in
       let prim :=                                         (* dec.DecodeRaw(&val) *)
-        match sd_next ok data pos with
-        | None => Err
-        | Some (_, n) => _ <- slice data pos (pos + n) ;; Val (DN pos n [], (pos + n)%nat)
-        end in
+        tlift (match sd_next ok data pos with
+               | None => Err
+               | Some (_, n) => _ <- slice data pos (pos + n) ;; Val (DN pos n [], (pos + n)%nat)
+               end) in
       if (mt =? 0) || (mt =? 32) || (mt =? 224) then prim
       else if (mt =? 64) || (mt =? 96) then
         if ai =? 31 then
           (* parseIndefiniteStringDiagnosticNode: Advance(1), chunks until 0xff *)
-          _ <- (if Nat.ltb (length data) (pos + 1) then Err else Val tt) ;;
-          r <- diag_indef f data (S depth) (pos + 1) 1 mt ;;
-          let '(kids, e) := r in
-          _ <- slice data pos e ;; Val (DN pos (e - pos) kids, e)
+          _ <~ tlift (if Nat.ltb (length data) (pos + 1) then Err else Val tt) ;;
+          r <~ diag_indef f data (S depth) (pos + 1) 1 mt ;;
+          diag_close data pos (fun k => k) r
         else prim
       else if (mt =? 128) || (mt =? 160) then
-        h <- collection_header data pos ;;
+        h <~ tlift (collection_header data pos) ;;
         let '(len, hl, indef) := h in
-        _ <- (if Nat.ltb (length data) (pos + hl) then Err else Val tt) ;;      (* dec.Advance(headerLen) *)
+        _ <~ tlift (if Nat.ltb (length data) (pos + hl) then Err else Val tt) ;;      (* dec.Advance(headerLen) *)
         let per := if mt =? 160 then 2%nat else 1%nat in
-        r <- (if (indef : bool) then diag_indef f data (S depth) (pos + hl) per 0
+        r <~ (if (indef : bool) then diag_indef f data (S depth) (pos + hl) per 0
               else diag_count f data (S depth) (pos + hl) (len * N.of_nat per)) ;;
-        let '(kids, e) := r in
-        _ <- slice data pos e ;; Val (DN pos (e - pos) kids, e)            (* data[start:end] *)
+        diag_close data pos (fun k => k) r                                          (* data[start:end] *)
       else
         (* tag *)
-        h <- tag_header data pos ;;
+        h <~ tlift (tag_header data pos) ;;
         let '(_, hl) := h in
-        _ <- (if Nat.ltb (length data) (pos + hl) then Err else Val tt) ;;
-        r <- diag_node f data (S depth) (pos + hl) ;;
-        let '(kid, e) := r in
-        _ <- slice data pos e ;; Val (DN pos (e - pos) [kid], e)
+        _ <~ tlift (if Nat.ltb (length data) (pos + hl) then Err else Val tt) ;;
+        r <~ diag_node f data (S depth) (pos + hl) ;;
+        diag_close data pos (fun k => [k]) r)
     end
   (* for range length { child } *)
-  with diag_count (fuel : nat) (data : bytes) (depth pos : nat) (k : N) {struct fuel} : out (list dnode * nat) :=
+  with diag_count (fuel : nat) (data : bytes) (depth pos : nat) (k : N) {struct fuel} : tk (list dnode * nat) :=
     match fuel with
-    | O => OutOfFuel
+    | O => (OutOfFuel, 0%nat)
     | S f =>
-      if k =? 0 then Val ([], pos) else
-      r <- diag_node f data depth pos ;;
+      if k =? 0 then tlift (Val ([], pos)) else
+      r <~ diag_node f data depth pos ;;
       let '(kid, p1) := r in
-      r2 <- diag_count f data depth p1 (k - 1) ;;
-      let '(kids, e) := r2 in Val (kid :: kids, e)
+      r2 <~ diag_count f data depth p1 (k - 1) ;;
+      let '(kids, e) := r2 in tlift (Val (kid :: kids, e))
     end
   (* for { pos >= len -> error; data[pos] == 0xff -> Advance(1); break; per children }
      (parseArray/Map/IndefiniteString DiagnosticNode; chunk <> 0: the string variant) *)
-  with diag_indef (fuel : nat) (data : bytes) (depth pos : nat) (per : nat) (chunk : N) {struct fuel} : out (list dnode * nat) :=
+  with diag_indef (fuel : nat) (data : bytes) (depth pos : nat) (per : nat) (chunk : N) {struct fuel} : tk (list dnode * nat) :=
     match fuel with
-    | O => OutOfFuel
+    | O => (OutOfFuel, 0%nat)
     | S f =>
-      if Nat.leb (length data) pos then Err else
-      b <- idx data pos ;;
+      if Nat.leb (length data) pos then tlift Err else
+      b <~ tlift (idx data pos) ;;
       if b =? 255 then
-        (if Nat.ltb (length data) (pos + 1) then Err else Val ([], (pos + 1)%nat))
+        tlift (if Nat.ltb (length data) (pos + 1) then Err else Val ([], (pos + 1)%nat))
       else
-        r <- diag_node f data depth pos ;;
+        r <~ diag_node f data depth pos ;;
         let '(k1, p1) := r in
         (* chunks of an indefinite string: definite strings of the same major type *)
-        _ <- (if negb (chunk =? 0) && (negb (N.land b 224 =? chunk) || (N.land b 31 =? 31)) then Err else Val tt) ;;
-        r1 <- (if Nat.eqb per 2 then
-                 r' <- diag_node f data depth p1 ;; let '(k2, p2) := r' in Val ([k1; k2], p2)
-               else Val ([k1], p1)) ;;
+        _ <~ tlift (if negb (chunk =? 0) && (negb (N.land b 224 =? chunk) || (N.land b 31 =? 31)) then Err else Val tt) ;;
+        r1 <~ (if Nat.eqb per 2 then
+                 r' <~ diag_node f data depth p1 ;; let '(k2, p2) := r' in tlift (Val ([k1; k2], p2))
+               else tlift (Val ([k1], p1))) ;;
         let '(ks, p2) := r1 in
-        r2 <- diag_indef f data depth p2 per chunk ;;
-        let '(kids, e) := r2 in Val (ks ++ kids, e)
+        r2 <~ diag_indef f data depth p2 per chunk ;;
+        let '(kids, e) := r2 in tlift (Val (ks ++ kids, e))
     end.
 
   (* cbor.ParseDiagnostic: one node, then EOF *)
-  Definition parse_diagnostic (fuel : nat) (data : bytes) : out dnode :=
-    r <- diag_node fuel data 0 0 ;;
-    let '(n, e) := r in if Nat.ltb e (length data) then Err else Val n.
+  Definition parse_diagnostic (fuel : nat) (data : bytes) : tk dnode :=
+    r <~ diag_node fuel data 0 0 ;;
+    let '(n, e) := r in tlift (if Nat.ltb e (length data) then Err else Val n).
 End diag.
 
 (* ================================================================== *)
@@ -595,6 +1056,62 @@ Fixpoint spans (n : dnode) : list (nat * nat) :=
   match n with DN o l ks => (o, l) :: flat_map spans ks end.
 Definition span_eqb (a b : nat * nat) : bool := Nat.eqb (fst a) (fst b) && Nat.eqb (snd a) (snd b).
 
+(* observed transaction location: body, witness, metadata, outputs, components;
+   a component is (kind 0 datum / 1 redeemer / 2 script, a, b, range): the Go maps
+   are keyed by hashes, so the harness reports their VALUES (for redeemers also the key) *)
+Definition ocomp := (N * N * N * range)%type.
+Definition otx := (range * range * range * list range * list ocomp)%type.
+Definition range_eqb (a b : range) : bool := (fst a =? fst b) && (snd a =? snd b).
+
+Definition comp_key (c : comp) : N * N * N * bytes :=
+  match c with
+  | CDatum _ s => (0, 0, 0, s)
+  | CRedeemer t i _ => (1, t, i, [])
+  | CScript ty _ s => (2, ty, 0, s)
+  end.
+Definition key_eqb (a b : N * N * N * bytes) : bool :=
+  let '(a1, a2, a3, a4) := a in let '(b1, b2, b3, b4) := b in
+  (a1 =? b1) && (a2 =? b2) && (a3 =? b3) && bytes_eqb a4 b4.
+(* a Go map keeps the last insertion of a key *)
+Fixpoint dedup_last (l : list comp) : list comp :=
+  match l with
+  | [] => []
+  | c :: r => if existsb (fun d => key_eqb (comp_key c) (comp_key d)) r then dedup_last r else c :: dedup_last r
+  end.
+Definition comp_matches (c : comp) (o : ocomp) : bool :=
+  let '(kind, a, b, rg) := o in
+  match c with
+  | CDatum r _ => (kind =? 0) && range_eqb r rg
+  | CRedeemer t i r => (kind =? 1) && (t =? a) && (i =? b) && range_eqb r rg
+  | CScript _ r _ => (kind =? 2) && range_eqb r rg
+  end.
+Definition comps_eqb (cs : list comp) (os : list ocomp) : bool :=
+  let cs' := dedup_last cs in
+  Nat.eqb (length cs') (length os) &&
+  forallb (fun c => existsb (comp_matches c) os) cs' &&
+  forallb (fun o => existsb (fun c => comp_matches c o) cs') os.
+Definition tx_eqb (t : txloc) (o : otx) : bool :=
+  let '(b, w, m, outs, comps) := o in
+  range_eqb (l_body t) b && range_eqb (l_wit t) w && range_eqb (l_meta t) m &&
+  list_eqb range_eqb (l_outs t) outs && comps_eqb (l_comps t) comps.
+
+Fixpoint txs_eqb (ts : list txloc) (os : list otx) : bool :=
+  match ts, os with
+  | [], [] => true
+  | t :: tr, o :: orr => tx_eqb t o && txs_eqb tr orr
+  | _, _ => false
+  end.
+
+Definition cb3_eqb (a b : nat * nat * nat) : bool :=
+  let '(a1, a2, a3) := a in let '(b1, b2, b3) := b in Nat.eqb a1 b1 && Nat.eqb a2 b2 && Nat.eqb a3 b3.
+Definition msg_eqb (a b : N * bytes) : bool := (fst a =? fst b) && bytes_eqb (snd a) (snd b).
+Fixpoint is_prefix {A} (eqb : A -> A -> bool) (p l : list A) : bool :=
+  match p, l with
+  | [], _ => true
+  | x :: pr, y :: lr => eqb x y && is_prefix eqb pr lr
+  | _ :: _, [] => false
+  end.
+
 Inductive case :=
 | CInfo (major : N) (data : bytes) (cnt : option N) (hs : nat) (indef : bool)          (* ArrayInfo / MapInfo *)
 | CHeader (major : N) (data : bytes) (abs : nat) (res : option (N * nat))              (* DecodeArrayHeader / DecodeMapHeader *)
@@ -604,7 +1121,11 @@ Inductive case :=
 | CAddr (data : bytes) (byron : bool) (cls : N) (ptr : option (N * N * N)) (extra : bytes)   (* NewAddressFromBytes *)
 | CExtract (data : bytes) (eb ew : nat) (meta : bool) (cbs : list cb) (cls : N)        (* ExtractAndSetTransactionCbor *)
 | CDiag (data : bytes) (cls : N) (sp : list (nat * nat))                               (* ParseDiagnostic *)
-| CMux (conn : bytes) (segs : nat) (allocs : list N).                                  (* muxer read loop *)
+| CMux (conn : bytes) (segs : nat) (allocs : list N)                                   (* muxer read loop *)
+| COffsets (streaming : bool) (data : bytes) (res : option (list otx))                 (* DecodeWithOffsets / ExtractTransactionOffsets *)
+| CCbor (data : bytes) (off len : N) (res : option bytes)                              (* ExtractTransactionBodyCbor & co *)
+| CItems (data : bytes) (abs : nat) (res : option (nat * nat * list (nat * nat * nat))) (* DecodeArrayItems *)
+| CProto (segs : list bytes) (must : nat) (msgs : list (N * bytes)) (errored : bool).  (* protocol read loop *)
 
 Definition cb_eqb (a b : cb) : bool :=
   let '(k1, i1, s1) := a in let '(k2, i2, s2) := b in (k1 =? k2) && Nat.eqb i1 i2 && bytes_eqb s1 s2.
@@ -630,6 +1151,10 @@ Definition check_case (c : case) : bool :=
       | Panic => panicked
       | _ => false end
   | CAdvance data pos n cls newpos =>
+      (* position + n above MaxInt64: the caller handed in a number that is not a length of
+         anything; the current text wraps and panics (C02_advance_overflow_refuted), an
+         overflow-safe text returns the error - either is accepted here *)
+      if (max_int64 <? Z.of_nat pos + n)%Z then (cls =? 1) || (cls =? 2) else
       match advance data pos n with
       | Val p => (cls =? 0) && Nat.eqb p newpos
       | r => class r =? cls end
@@ -647,12 +1172,42 @@ Definition check_case (c : case) : bool :=
       let '(acc, st, _) := extract_and_set any_ok (fuel_of data) data eb ew meta in
       list_eqb cb_eqb acc cbs && (class st =? cls)
   | CDiag data cls sp =>
-      match parse_diagnostic any_ok (fuel_of data) data with
+      match fst (parse_diagnostic any_ok (fuel_of data) data) with
       | Val n => (cls =? 0) && list_eqb span_eqb (spans n) sp
       | r => class r =? cls end
   | CMux conn segs allocs =>
       match mux_read (S (length conn)) conn 0 [] with
       | Val (s, a) => Nat.eqb s segs && list_eqb N.eqb (rev a) allocs
+      | _ => false end
+  | COffsets streaming data res =>
+      match extract_offsets streaming (S (length data)) data, res with
+      | Val (XDone txs _), Some os => txs_eqb txs os
+      | Val XUnmodelled, _ => true
+      | Err, None => true
+      | _, _ => false end
+  | CCbor data off len res =>
+      match extract_cbor data (off, len), res with
+      | Val s, Some s' => bytes_eqb s s'
+      | Err, None => true
+      | _, _ => false end
+  | CItems data abs res =>
+      match decode_array_items data abs, res with
+      | Val (s, n, cbs), Some (s', n', cbs') => Nat.eqb s s' && Nat.eqb n n' && list_eqb cb3_eqb cbs cbs'
+      | Err, None => true
+      | _, _ => false end
+  | CProto segs must msgs errored =>
+      (* the harness knows that the segments 0 .. must-1 have been worked off completely;
+         the later ones (flush segments) may or may not have been *)
+      match proto_read lib_cbor typ_cbor (S (length (concat segs))) segs 0 [] [] with
+      | Val (ms, err_at) =>
+          let all := map snd ms in
+          let sure := map snd (filter (fun m => Nat.ltb (fst m) must) ms) in
+          match err_at with
+          | Some j =>
+              if Nat.ltb j must then errored && list_eqb msg_eqb all msgs
+              else is_prefix msg_eqb sure msgs && (if errored then list_eqb msg_eqb all msgs else is_prefix msg_eqb msgs all)
+          | None => negb errored && is_prefix msg_eqb sure msgs && is_prefix msg_eqb msgs all
+          end
       | _ => false end
   end.
 Definition mismatches := failing check_case.
